@@ -62,16 +62,21 @@ def _mc_one(ctx, job):
     workers = {'star3': 10, 'three1': 6, 'full2': 4, 'star2': 8 if ctx.quick else 3}.get(scn, 1)
     # per-action coverage (vacuity control) on the small configuration only
     return tlc.mc(rc.SPEC_DIR, mod, cfg, extra_files=files, coverage=(scn == 'three0'),
-                  workers=workers, heap='4g', timeout=150 if ctx.quick else 780)
+                  workers=workers, heap='4g', timeout=150 if ctx.quick else 600)
 
 
 GEN_SOURCES = [('star3', 0), ('three1', 0), ('three1', 1), ('full2', 0)]
 
 
 # ---- beyond C19: reservations -> /allocations (CellSync.tla) -------------
+def _density(ctx):
+    """share of histories that get the full Sync/Assign interleaving"""
+    return 1.0 if ctx.quick else 0.4
+
+
 def _cellsync_jobs(ctx):
     return [('ext cellsync slim<=4', 4, True)] if ctx.quick else \
-        [('ext cellsync slim<=6', 6, True), ('ext cellsync full<=4', 4, False)]
+        [('ext cellsync slim<=6', 6, True), ('ext cellsync full<=3', 3, False)]
 
 
 def _cellsync_mc(ctx, job):
@@ -79,7 +84,7 @@ def _cellsync_mc(ctx, job):
     mod, cfg, files = rc.mc_cellsync_files(steps, tag='_%d%s' % (steps, 's' if slim else 'f'),
                                            invariants=rc.CELLSYNC_INVARIANTS, slim=slim)
     return tlc.mc(rc.SPEC_DIR, mod, cfg, extra_files=files, coverage=False,
-                  workers=2 if ctx.quick else 6, heap='4g', timeout=150 if ctx.quick else 780)
+                  workers=2 if ctx.quick else 6, heap='4g', timeout=150 if ctx.quick else 600)
 
 
 def _cellsync_sim(ctx):
@@ -155,7 +160,7 @@ def _model_side(ctx):
         for b in behaviours:
             # reservation requests as TLC generated them, interleaved with cellsync runs
             items.append(('tlc:%s' % scn, 'tlc', rc.SCENARIOS[scn]['tables'][ti],
-                          rc.weave_sync(wrng, rc.from_labels(b))))
+                          rc.weave_sync(wrng, rc.from_labels(b), _density(ctx))))
     return items
 
 
@@ -165,10 +170,10 @@ def _random_side(ctx):
     rng = random.Random(ctx.seed * 7919 + 19)
     for _ in range(n_rnd):
         table, hist = rc.gen_random(rng, rng.choice([5, 8, 12]))
-        items.append(('rnd', 'rnd', table, rc.weave_sync(rng, hist)))
+        items.append(('rnd', 'rnd', table, rc.weave_sync(rng, hist, _density(ctx))))
     for _ in range(n_rnd // 2):
         table, hist = rc.gen_traits(rng, rng.choice([4, 6, 8]))
-        items.append(('rnd', 'rnd-traits', table, rc.weave_sync(rng, hist)))
+        items.append(('rnd', 'rnd-traits', table, rc.weave_sync(rng, hist, _density(ctx))))
     return items
 
 
